@@ -191,9 +191,15 @@ pub fn run_e1_perm<F: Fn(&State) -> Eval + Sync>(run: &mut Run, dims: &[usize], 
     // a panic of the library in a call the check did not guard individually (accessors such as get_cell_at) is an
     // observation about that state, not a harness crash
     let check = run.property.to_lowercase();
+    let hist_max = if run.thorough() { 5 } else { 4 };
     let f = move |s: &State| -> Eval {
         match util::guarded(|| f(s)) {
-            Ok(e) => e,
+            Ok(mut e) => {
+                if s.n() <= hist_max {
+                    tess::history_differential(&mut e, &check, s);
+                }
+                e
+            }
             Err(p) => {
                 let mut e = Eval::default();
                 e.issue(
@@ -211,6 +217,7 @@ pub fn run_e1_perm<F: Fn(&State) -> Eval + Sync>(run: &mut Run, dims: &[usize], 
     if perms {
         run.bounds.push(format!("every order of the generators in the input slice for states with 2..{} generators", pmax));
     }
+    run.bounds.push(format!("call-history transitions (same slice under the next lower dimensionality / reversed / single-cell mask / one generator moved, then the state again) for states with at most {} generators", hist_max));
     for fam in fams {
         let mut states: Vec<State> = fam.states().into_iter().filter(|s| s.n() <= max_n).collect();
         let mut desc = fam.describe();
